@@ -61,6 +61,14 @@ var twinConts = [][]O{
 }
 
 func init() {
+	// after a transaction ended (any way) or the file was opened: the state the File works with is the
+	// state a fresh open of the current disk contents arrives at
+	xstate.Hooks["memdisk"] = func(e *pagedrv.Env, last pagedrv.Op) {
+		switch last.K {
+		case pagedrv.ORollback, pagedrv.OCloseTx, pagedrv.OCommit, pagedrv.OReopen, pagedrv.OReopenWith:
+			e.CheckMemVsDisk("after " + last.String())
+		}
+	}
 	xstate.Probes["sweep"] = probeSweep
 	xstate.Probes["capacity"] = probeCapacity
 	register(&Check{ID: "C04", Level: "model_checking", Replay: xstate.ReplayDoc, Run: runC04})
@@ -209,6 +217,10 @@ var (
 		{K: pagedrv.OBegin, B: 1}, {K: pagedrv.OFreeEveryOther}, {K: pagedrv.OAllocAvail, A: 0}, {K: pagedrv.OWriteAll}, {K: pagedrv.OCommit},
 		{K: pagedrv.OBegin, A: 1, B: 1}, {K: pagedrv.ORollback},
 		{K: pagedrv.OBegin, B: 1}, {K: pagedrv.OWrite, A: -1}, {K: pagedrv.OCommit}}}
+	// inside an overflow-enabled transaction that filled the file to its last page and flushed an overwrite:
+	// the overflow area has grown in the running transaction (the search starts with the transaction open)
+	seedOverflowOpen = seed{"overflow-tx-open", []O{{K: pagedrv.OBegin}, {K: pagedrv.OAlloc, A: 2}, {K: pagedrv.OWriteAll}, {K: pagedrv.OCommit},
+		{K: pagedrv.OBegin, B: 1}, {K: pagedrv.OAllocAvail, A: 0}, {K: pagedrv.OWrite, A: 0}, {K: pagedrv.OFlushTx}}}
 	seedWide = seed{"wide-overwritten", []O{{K: pagedrv.OBegin}, {K: pagedrv.OAlloc, A: 14}, {K: pagedrv.OWriteAll}, {K: pagedrv.OCommit},
 		{K: pagedrv.OBegin}, {K: pagedrv.OWriteAll}, {K: pagedrv.OCommit}}}
 )
@@ -294,8 +306,12 @@ func runC04(ctx *core.Ctx, pool *par.Pool) {
 	if ctx.Quick() {
 		runs = quickPlan(depth, seedDepth, false, true)
 	}
+	nOv := 3 // overflow-body runs below
+	if !ctx.Quick() {
+		nOv = 7
+	}
 	for _, run := range runs {
-		ctx.Share(ctx.Budget() / time.Duration(len(runs)))
+		ctx.Share(ctx.FairShare(len(runs)+nOv, 1))
 		cfg := run.Cfg
 		var all []*xstate.Node
 		st := xstate.BFS(ctx, pool, xstate.Spec{Cfg: cfg, Seed: run.Seed.Ops, Alphabet: allocAlphabet(true, !ctx.Quick()), MaxDepth: run.Depth, Flags: []string{"diskfmt"},
@@ -308,12 +324,13 @@ func runC04(ctx *core.Ctx, pool *par.Pool) {
 		xstate.RunProbes(ctx, pool, cfg, all, "sweep", nil, []string{"diskfmt"}, func(n *xstate.Node, r *xstate.ProbeResult) { sweeps++ })
 	}
 	// transaction bodies on files that live in their overflow area: narrow alphabet, deeper
-	ovRuns := []bfsRun{{pagedrv.CfgA, seedOverflowPartial, 6}, {pagedrv.CfgA, seedOverflow, 5}}
+	ovRuns := []bfsRun{{pagedrv.CfgA, seedOverflowPartial, 6}, {pagedrv.CfgA, seedOverflow, 5}, {pagedrv.CfgA, seedOverflowOpen, 5}}
 	if !ctx.Quick() {
-		ovRuns = []bfsRun{{pagedrv.CfgA, seedOverflowPartial, 8}, {pagedrv.CfgA, seedOverflow, 8}, {pagedrv.CfgB, seedOverflowPartial, 8}, {pagedrv.CfgB, seedOverflow, 8}, {pagedrv.CfgD, seedOverflow, 7}}
+		ovRuns = []bfsRun{{pagedrv.CfgA, seedOverflowPartial, 8}, {pagedrv.CfgA, seedOverflow, 8}, {pagedrv.CfgB, seedOverflowPartial, 8}, {pagedrv.CfgB, seedOverflow, 8}, {pagedrv.CfgD, seedOverflow, 7},
+			{pagedrv.CfgA, seedOverflowOpen, 8}, {pagedrv.CfgD, seedOverflowOpen, 8}}
 	}
 	for _, run := range ovRuns {
-		ctx.Share(ctx.Budget() / time.Duration(len(runs)+len(ovRuns)))
+		ctx.Share(ctx.FairShare(len(runs)+len(ovRuns), 1))
 		var all []*xstate.Node
 		st := xstate.BFS(ctx, pool, xstate.Spec{Cfg: run.Cfg, Seed: run.Seed.Ops, Alphabet: overflowBodyAlphabet(), MaxDepth: run.Depth, Flags: []string{"diskfmt"},
 			OnTransition: sampleHook(ctx, run.Cfg),
@@ -337,6 +354,7 @@ func overflowBodyAlphabet() []O {
 		{K: pagedrv.OFree, A: -1},
 		{K: pagedrv.OWriteAll, B: pagedrv.WFull},
 		{K: pagedrv.OWrite, A: 0, B: pagedrv.WFull},
+		{K: pagedrv.OWrite, A: 1, B: pagedrv.WFull},
 		{K: pagedrv.OAlloc, A: 1},
 		{K: pagedrv.OFlushTx},
 		{K: pagedrv.OCommit},
@@ -365,7 +383,7 @@ func runC11(ctx *core.Ctx, pool *par.Pool) {
 		runs = append(runs, bfsRun{pagedrv.CfgU, seedEmpty, depth - 1}, bfsRun{pagedrv.CfgU, seedTail, seedDepth - 1})
 	}
 	for _, run := range runs {
-		ctx.Share(ctx.Budget() / time.Duration(len(runs)))
+		ctx.Share(ctx.FairShare(len(runs), 1))
 		cfg := run.Cfg
 		var quiet []*xstate.Node
 		st := xstate.BFS(ctx, pool, xstate.Spec{Cfg: cfg, Seed: run.Seed.Ops, Alphabet: allocAlphabet(false, !ctx.Quick()), MaxDepth: run.Depth,
@@ -409,11 +427,11 @@ func runC07(ctx *core.Ctx, pool *par.Pool) {
 		runs = quickPlan(depth, seedDepth, true, true)
 	}
 	for _, run := range runs {
-		ctx.Share(ctx.Budget() / time.Duration(len(runs)))
+		ctx.Share(ctx.FairShare(len(runs), 1))
 		cfg := run.Cfg
 		var twins []xstate.TwinTask
 		seenPair := map[string]bool{}
-		st := xstate.BFS(ctx, pool, xstate.Spec{Cfg: cfg, Seed: run.Seed.Ops, Alphabet: allocAlphabet(true, !ctx.Quick()), MaxDepth: run.Depth,
+		st := xstate.BFS(ctx, pool, xstate.Spec{Cfg: cfg, Seed: run.Seed.Ops, Alphabet: allocAlphabet(true, !ctx.Quick()), MaxDepth: run.Depth, Flags: []string{"memdisk"},
 			OnTransition: func(from *xstate.Node, s *xstate.Succ, isNew bool, to *xstate.Node) {
 				sampleHook(ctx, cfg)(from, s, isNew, to)
 				aborted := s.Op.K == pagedrv.ORollback || s.Op.K == pagedrv.OCloseTx
@@ -502,7 +520,7 @@ func runC10(ctx *core.Ctx, pool *par.Pool) {
 		runs = quickPlan(depth, seedDepth, true, true)
 	}
 	for _, run := range runs {
-		ctx.Share(ctx.Budget() * 8 / 10 / time.Duration(len(runs)))
+		ctx.Share(ctx.FairShare(len(runs), 0.8))
 		cfg := run.Cfg
 		var twins []xstate.TwinTask
 		st := xstate.BFS(ctx, pool, xstate.Spec{Cfg: cfg, Seed: run.Seed.Ops, Alphabet: allocAlphabet(true, !ctx.Quick()), MaxDepth: run.Depth,
@@ -599,7 +617,7 @@ func runOrderExperiment(ctx *core.Ctx, pool *par.Pool) {
 	runs := []bfsRun{{pagedrv.CfgA, seedFull, 6}, {pagedrv.CfgA, seedOverflow, 6}, {pagedrv.CfgB, seedOverflow, 6}, {pagedrv.CfgA, seedWAL, 6}}
 	var total xstate.Stats
 	for _, run := range runs {
-		ctx.Share(ctx.Budget() / time.Duration(len(runs)))
+		ctx.Share(ctx.FairShare(len(runs), 1))
 		st := xstate.BFS(ctx, pool, xstate.Spec{Cfg: run.Cfg, Seed: run.Seed.Ops, Alphabet: orderAlphabet(), MaxDepth: run.Depth, Flags: []string{"diskfmt"}})
 		total.States += st.States
 		total.Transitions += st.Transitions
